@@ -1,4 +1,5 @@
 import Driver.Util
 import Driver.SemDrv
 import Driver.SndDrv
+import Driver.SharedDrv
 import Driver.Main
